@@ -216,6 +216,11 @@ def run_case(case, stats):
     if fresh() != ("val", V):
         raise Violation("stream_kind", "simstream_vs_bytesio", f"fault-free SimStream and BytesIO disagree on {A.hex()}")
 
+    # ---- deferred I/O: pointers of the parsed value are dereferenced on streams that hold the complete structure but are
+    # cut somewhere in the data BEHIND it (where targets live): a dereference gives what it gives on the uncut data, or raises
+    if not big and case.get("root_sel") is None and not case["eof_tagged"] and case.get("only_plan") is None:
+        _deferred_reads(root, A, case, stats)
+
     # fault plans: full single-fault enumeration (long inputs: cuts and short reads sampled at and around element boundaries)
     mrng = random.Random(case["multi_seed"])
     if big:
@@ -365,6 +370,79 @@ def run_case(case, stats):
 
 
 _UNSEEN = bytes(0xFF if i == 0 else 0 for i in range(256))
+
+
+def _pointers(v, out, depth=0):
+    from dissect.cstruct.types import Pointer, Structure
+
+    if depth > 5 or len(out) >= 8:
+        return
+    if isinstance(v, Pointer):
+        out.append(v)
+    elif isinstance(v, Structure):
+        for f in type(v).__fields__:
+            try:
+                _pointers(getattr(v, f._name), out, depth + 1)
+            except AttributeError:
+                pass
+    elif isinstance(v, list):
+        for e in v[:3]:
+            _pointers(e, out, depth + 1)
+
+
+def _deref_all(root, stream):
+    v = root(stream)
+    ps = []
+    _pointers(v, ps)
+    res = []
+    for p in ps:
+        try:
+            t = p.dereference()
+            res.append(("val", observe(t, sizes=False) if not isinstance(t, int) or isinstance(t, bool) else ["i", int.__index__(t)]))
+        except Exception as e:  # noqa: BLE001
+            res.append(("exc", type(e).__name__))
+    return [int.__index__(p) for p in ps], res
+
+
+def _deferred_reads(root, A, case, stats):
+    import mmap
+
+    rng = random.Random(case["multi_seed"] ^ 0x77)
+    B = A + gen.gen_bytes(rng, 72, long_runs=rng.random() < 0.5)
+    try:
+        addrs, full = _deref_all(root, io.BytesIO(B))
+    except Exception:  # noqa: BLE001
+        return
+    if not addrs:
+        return
+    stats.count("probe.case_with_pointers_dereferenced")
+    cuts = {len(A), len(B) - 1, len(A) + 1}
+    for a in addrs:
+        for d in (1, 2, 3, 5, 9):
+            if len(A) <= a + d < len(B):
+                cuts.add(a + d)
+    cuts |= {rng.randrange(len(A), len(B)) for _ in range(3)}
+    for k in sorted(cuts)[:10]:
+        for kind in ("sim", "mmap"):
+            if kind == "mmap":
+                if k == 0:
+                    continue
+                st = mmap.mmap(-1, k)
+                st.write(B[:k])
+                st.seek(0)
+            else:
+                st = SimStream(B[:k])
+            try:
+                addrs2, got = _deref_all(root, st)
+            except Exception:  # noqa: BLE001
+                continue
+            stats.count("evaluations")
+            stats.count("fault.eof_behind_structure_" + kind)
+            for i, (g, f_) in enumerate(zip(got, full)):
+                if g[0] == "val" and g != f_:
+                    raise Violation("never_fabricates", "dereference_on_truncated_data_returns_other_value",
+                                    f"data cut at {k} of {len(B)} ({kind} stream; the structure itself ends at {len(A)}): dereferencing pointer #{i} "
+                                    f"(address {addrs[i]}) gives {g}, on the uncut data {f_}")
 
 
 def _twin(A: bytes, D: bytearray, fill: str) -> bytes:
